@@ -654,6 +654,13 @@ class SX:
                     if r is not None and not isinstance(r, ast.Name) and not (isinstance(r, ast.Attribute) and isinstance(r.value, ast.Name)) \
                             and all(single_store(a) for a in used):
                         out = ast.fix_missing_locations(ast.copy_location(r, assigns[0]))
+        if out is not None:
+            # a reference to a container that its owner later rebinds is NOT the live container (sa/aliases): no alias then
+            if not hasattr(self.model, '_alias_findings'):
+                from .aliases import alias_findings
+                self.model._alias_findings = {(c_, f_) for c_, f_, *_ in alias_findings(self.model)[0]}
+            if any(c_ == cls and self.model.mangle(cls, f_) == mangled for c_, f_ in self.model._alias_findings):
+                out = None
         self._field_types[key] = out
         return out
 
